@@ -19,7 +19,7 @@ RULE = ('E1 enumeration of expression trees (<=k leaves over signed surface, fac
         '#( ) at inner nodes) times spelling choices (blanks, blanks around ":", blanks inside '
         'parentheses, redundant parentheses, adjacency ")(", "1(", ")1", "# n", "# (", "#1#2", '
         'explicit "+"); every state is evaluated under all 2^n sense assignments; non-trivial = '
-        'expression with at least one operator; distinct = distinct expression text')
+        'expression with at least one operator; distinct = distinct expression text; also: operands under 0 ... 6 directly nested #( )')
 ASSUMPTIONS = [
     'MCNP expression rules: blank = intersection binds tighter than ":", #n = complement of cell n, '
     '#( ) = complement of the sub-expression, a.k = facet k of macrobody a',
